@@ -121,6 +121,7 @@ pub(super) struct Outbound<'a> {
     pending_control: Vec<PendingControl, MAX_PENDING_CONTROL>,
     retained: Vec<RetainedPacket, MAX_RETAINED>,
     pending_release: Vec<PendingRelease, MAX_PENDING_RELEASE>,
+    publish_window: u16,
 }
 
 impl<'a> Outbound<'a> {
@@ -131,7 +132,29 @@ impl<'a> Outbound<'a> {
             pending_control: Vec::new(),
             retained: Vec::new(),
             pending_release: Vec::new(),
+            publish_window: u16::MAX,
         }
+    }
+
+    /// Limit how many QoS 1/2 publishes may be unresolved on the wire at once. A resumed session
+    /// can hold more in-flight publishes than the new connection's Receive Maximum allows; the
+    /// surplus is replayed as acknowledgements free the window.
+    pub(super) fn set_publish_window(&mut self, window: u16) {
+        self.publish_window = window;
+    }
+
+    fn is_publish(&self, entry: &RetainedPacket) -> bool {
+        self.buf[entry.offset] >> 4 == MessageType::Publish as u8
+    }
+
+    fn publish_window_full(&self) -> bool {
+        let on_wire = self
+            .retained
+            .iter()
+            .filter(|entry| !entry.state.is_fresh() && self.is_publish(entry))
+            .count()
+            + self.pending_release.len();
+        on_wire >= self.publish_window as usize
     }
 
     pub(super) fn clear(&mut self) {
@@ -184,7 +207,7 @@ impl<'a> Outbound<'a> {
     pub(super) fn inflight_publishes(&self) -> usize {
         self.retained
             .iter()
-            .filter(|entry| self.buf[entry.offset] >> 4 == MessageType::Publish as u8)
+            .filter(|entry| self.is_publish(entry))
             .count()
             + self.pending_release.len()
     }
@@ -344,6 +367,10 @@ impl<'a> Outbound<'a> {
             }
             for entry in &self.retained {
                 if entry.state.matches_priority(in_progress) {
+                    if !in_progress && self.is_publish(entry) && self.publish_window_full() {
+                        // Later packets wait behind it so that the replay order is kept.
+                        break;
+                    }
                     return Some(OutboundStep::Retained(RetainedStep {
                         packet_id: entry.packet_id,
                         offset: entry.offset,
